@@ -155,14 +155,46 @@ Lemma manager_stop_spec c o w :
   manager_stop c o w = Ret (set_ctx (relapp [o] w) (c_threads c (remn o (cthreads c)))).
 Proof. unfold manager_stop. rewrite catch_release. reflexivity. Qed.
 
-(* a stop handler that raises does not stop the others *)
-Lemma run_handlers_spec hs : forall w, run_handlers hs w = Ret (hrunapp (map fst hs) w).
+(* which stop-handler faults the `try ... except` around a stop handler catches *)
+Definition caught (v : variant) (h : hfault) : bool :=
+  match h, v with HBase, Fixed => true | HBase, _ => false | _, _ => true end.
+Definition all_caught (w : world) (c : ctx) : bool := forallb (fun h => caught (vr w) (snd h)) (shs c).
+
+Lemma vr_match {A} (w : world) (X Y : A) :
+  vr w <> Current -> match vr w with Current => X | _ => Y end = Y.
+Proof. destruct (vr w); congruence. Qed.
+
+Lemma catch_caught v h w1 : caught v h = true ->
+  catch_stop_handler v (match h with HOk => Ret w1 | HExc => Raise EOther w1 | HBase => Raise EBase w1 end) = Ret w1.
+Proof. destruct h, v; simpl; try discriminate; reflexivity. Qed.
+Lemma catch_uncaught v h w1 : caught v h = false ->
+  catch_stop_handler v (match h with HOk => Ret w1 | HExc => Raise EOther w1 | HBase => Raise EBase w1 end) = Raise EBase w1.
+Proof. destruct h, v; simpl; try discriminate; reflexivity. Qed.
+
+(* a stop handler whose exception is caught does not stop the others *)
+Lemma run_handlers_spec hs : forall w,
+  forallb (fun h => caught (vr w) (snd h)) hs = true -> run_handlers hs w = Ret (hrunapp (map fst hs) w).
 Proof.
-  induction hs as [|[i b] hs IH]; intros w; simpl.
+  induction hs as [|[i b] hs IH]; intros w H; simpl.
   - rewrite hrunapp_nil. reflexivity.
-  - unfold run_handler. simpl. destruct b; simpl; rewrite IH; f_equal;
-      (change (hrunapp (map fst hs) (hrunapp [i] w) = hrunapp (i :: map fst hs) w);
-       rewrite hrunapp_hrunapp; reflexivity).
+  - simpl in H. apply andb_true_iff in H as [H1 H2]. unfold run_handler. simpl snd. simpl fst.
+    rewrite catch_caught by exact H1. simpl bind.
+    change (run_handlers hs (hrunapp [i] w) = Ret (hrunapp ([i] ++ map fst hs) w)).
+    rewrite IH by exact H2. rewrite hrunapp_hrunapp. reflexivity.
+Qed.
+
+(* ... and one that is not caught aborts the rest: nothing but the run log changed *)
+Lemma run_handlers_abort hs : forall w,
+  forallb (fun h => caught (vr w) (snd h)) hs = false -> exists l, run_handlers hs w = Raise EBase (hrunapp l w).
+Proof.
+  induction hs as [|[i b] hs IH]; intros w H; simpl in *; [discriminate|].
+  unfold run_handler. simpl snd. simpl fst.
+  destruct (caught (vr w) b) eqn:C.
+  - rewrite catch_caught by exact C. simpl bind. simpl in H.
+    destruct (IH (hrunapp [i] w) H) as [l E]. exists ([i] ++ l).
+    change (run_handlers hs (hrunapp [i] w) = Raise EBase (hrunapp ([i] ++ l) w)).
+    rewrite E, hrunapp_hrunapp. reflexivity.
+  - rewrite catch_uncaught by exact C. exists [i]. reflexivity.
 Qed.
 
 (* stopping all the managers: every one is unregistered, released once and its thread ends *)
@@ -195,7 +227,7 @@ Record Inv (w : world) : Prop := {
   i_ctx : forall c, cur w = Some c -> TInv (objmap c) (handlers c) (cthreads c) (rel w) (nextoid w);
   i_relnd : NoDup (rel w);                          (* nothing is released twice *)
   i_rellt : Forall (fun o => o < nextoid w) (rel w);
-  i_fixed : vr w = Fixed -> lport w = false /\
+  i_fixed : vr w <> Current -> lport w = false /\
             forall c, cur w = Some c -> active c = false -> tcp c = false /\ router c = false;
   i_active : forall c, cur w = Some c -> active c = true -> used c = true;
   i_reg : md w = Single -> forall c, cur w = Some c -> active c = true -> reg w = true }.
@@ -238,12 +270,19 @@ Definition stopped_world (c : ctx) (w : world) : world :=
   set_ctx (relapp (live_oids (objmap c)) (hrunapp (map fst (shs c)) w)) (stopped_ctx c).
 
 Lemma ctx_stop_spec c w r nx :
-  TInv (objmap c) (handlers c) (cthreads c) r nx -> active c = true ->
+  TInv (objmap c) (handlers c) (cthreads c) r nx -> active c = true -> all_caught w c = true ->
   ctx_stop c w = Ret (stopped_world c w).
 Proof.
-  intros T A. unfold ctx_stop. rewrite A. simpl negb. cbv iota.
-  rewrite run_handlers_spec. simpl bind.
+  intros T A AC. unfold ctx_stop. rewrite A. simpl negb. cbv iota.
+  rewrite run_handlers_spec by exact AC. simpl bind.
   erewrite reclaim_spec; [reflexivity | simpl; exact T].
+Qed.
+
+Lemma ctx_stop_abort c w :
+  active c = true -> all_caught w c = false -> exists l, ctx_stop c w = Raise EBase (hrunapp l w).
+Proof.
+  intros A AC. unfold ctx_stop. rewrite A. simpl negb. cbv iota.
+  destruct (run_handlers_abort (shs c) w AC) as [l E]. exists l. rewrite E. reflexivity.
 Qed.
 
 Lemma ctx_stop_inactive c w : active c = false -> ctx_stop c w = Raise EUsage w.
@@ -260,10 +299,10 @@ Definition start_fails (f : fault) (w : world) : bool :=
 
 Lemma ctx_start_fixed_fail c f w r nx :
   TInv (objmap c) (handlers c) (cthreads c) r nx ->
-  active c = false -> used c = false -> router c = false -> vr w = Fixed -> start_fails f w = true ->
+  active c = false -> used c = false -> router c = false -> vr w <> Current -> start_fails f w = true ->
   ctx_start c f w = Raise EOSError (aborted_world c w).
 Proof.
-  intros T A U R V F. unfold ctx_start. rewrite A, U, R, V.
+  intros T A U R V F. unfold ctx_start. rewrite A, U, R.
   assert (forall cx, objmap cx = objmap c -> handlers cx = handlers c -> cthreads cx = cthreads c ->
                      cid cx = cid c -> shs cx = shs c ->
           match reclaim (c_flags (router_stop cx) false true) (set_ctx w (c_flags (router_stop cx) false true)) with
@@ -272,10 +311,10 @@ Proof.
     unfold aborted_world, aborted_ctx, emptied, set_ctx, set_cur, relapp. simpl. rewrite E1, E4, E5. reflexivity. }
   unfold start_fails in F.
   destruct f; simpl.
-  - rewrite F. apply K; reflexivity.
-  - apply K; reflexivity.
-  - destruct (lport w); apply K; reflexivity.
-  - rewrite F. apply K; reflexivity.
+  - rewrite F. rewrite vr_match by exact V. apply K; reflexivity.
+  - rewrite vr_match by exact V. apply K; reflexivity.
+  - destruct (lport w); rewrite vr_match by exact V; apply K; reflexivity.
+  - rewrite F. rewrite vr_match by exact V. apply K; reflexivity.
 Qed.
 
 Definition started_ctx (c : ctx) : ctx :=
@@ -453,8 +492,10 @@ Proof. intros [IC RN RL IF IA IR]. constructor; simpl; auto. Qed.
 Lemma inv_ctx_stop c w : Inv w -> cur w = Some c -> Inv (wof (ctx_stop c w)).
 Proof.
   intros I Hc. destruct (active c) eqn:A.
-  - erewrite ctx_stop_spec; [ | exact (i_ctx _ I _ Hc) | exact A ]. simpl wof. unfold stopped_world.
-    apply Inv_emptied with (c := c); auto. apply Inv_hrunapp. exact I.
+  - destruct (all_caught w c) eqn:AC.
+    + erewrite ctx_stop_spec; [ | exact (i_ctx _ I _ Hc) | exact A | exact AC ]. simpl wof. unfold stopped_world.
+      apply Inv_emptied with (c := c); auto. apply Inv_hrunapp. exact I.
+    + destruct (ctx_stop_abort c w A AC) as [l E]. rewrite E. simpl. apply Inv_hrunapp. exact I.
   - rewrite ctx_stop_inactive by exact A. exact I.
 Qed.
 
@@ -466,9 +507,10 @@ Proof.
   destruct (used c) eqn:U; [unfold ctx_start; rewrite A, U; exact I|].
   destruct (router c) eqn:R; [unfold ctx_start; rewrite A, U, R; exact I|].
   destruct (start_fails f w) eqn:F.
-  - destruct (vr w) eqn:V.
-    + erewrite ctx_start_fixed_fail; eauto. simpl wof. unfold aborted_world.
-      apply Inv_emptied with (c := c); auto.
+  - assert (vr w <> Current -> Inv (wof (ctx_start c f w))) as KT.
+    { intros V. erewrite ctx_start_fixed_fail; eauto. simpl wof. unfold aborted_world.
+      apply Inv_emptied with (c := c); auto. }
+    destruct (vr w) eqn:V; [apply KT; congruence | apply KT; congruence | ].
     + (* Current: whatever was built stays; only flags and sockets of the context change *)
       assert (forall cx, objmap cx = objmap c -> handlers cx = handlers c -> cthreads cx = cthreads c ->
                          active cx = false -> Inv (set_ctx w cx)) as K.
@@ -559,19 +601,25 @@ Proof.
   destruct (new_ctx w) as [w1|e w1]; simpl in *; [|exact I1].
   pose proof (inv_qstart_body f p (set_reg w1 true) (Inv_set_reg_true _ I1) eq_refl) as I3.
   destruct (qstart_body f p (set_reg w1 true)) as [w3|e w3]; simpl in *; [exact I3|].
-  destruct (vr w); [|exact I3]. simpl.
-  destruct (cur w3) as [c|] eqn:Hc; simpl.
-  - destruct (active c) eqn:A; simpl.
-    + try (change (cur (set_reg w3 false)) with (cur w3)); try rewrite Hc; try rewrite A.
-      erewrite ctx_stop_spec; [ | exact (i_ctx _ I3 _ Hc) | exact A ]. simpl wof.
-      rewrite stopped_world_set_reg. apply Inv_set_cur_none. apply Inv_set_reg_false.
-      * pose proof (inv_ctx_stop c w3 I3 Hc) as I4.
-        erewrite ctx_stop_spec in I4; [ exact I4 | exact (i_ctx _ I3 _ Hc) | exact A ].
-      * intros c0 H0. unfold stopped_world in H0. simpl in H0. inv_some. reflexivity.
-    + try (change (cur (set_reg w3 false)) with (cur w3)); try rewrite Hc; try rewrite A; simpl.
-      apply Inv_set_cur_none. apply Inv_set_reg_false; [exact I3|]. intros c0 H0. congruence.
-  - try (change (cur (set_reg w3 false)) with (cur w3)); try rewrite Hc; simpl.
-    apply Inv_set_reg_false; [exact I3|]. intros c0 H0. congruence.
+  assert (Inv (wof (match cur (set_reg w3 false) with
+                    | Some c => if active c then Raise e (set_cur (wof (ctx_stop c (set_reg w3 false))) None)
+                                else Raise e (set_cur (set_reg w3 false) None)
+                    | None => Raise e (set_reg w3 false) end))) as KT.
+  { change (cur (set_reg w3 false)) with (cur w3).
+    destruct (cur w3) as [c|] eqn:Hc; simpl.
+    - destruct (active c) eqn:A; simpl.
+      + destruct (all_caught (set_reg w3 false) c) eqn:AC.
+        * erewrite ctx_stop_spec; [ | exact (i_ctx _ I3 _ Hc) | exact A | exact AC ]. simpl wof.
+          rewrite stopped_world_set_reg. apply Inv_set_cur_none. apply Inv_set_reg_false.
+          -- pose proof (inv_ctx_stop c w3 I3 Hc) as I4.
+             erewrite ctx_stop_spec in I4; [ exact I4 | exact (i_ctx _ I3 _ Hc) | exact A | exact AC ].
+          -- intros c0 H0. unfold stopped_world in H0. simpl in H0. inv_some. reflexivity.
+        * destruct (ctx_stop_abort c (set_reg w3 false) A AC) as [l E]. rewrite E. simpl wof.
+          destruct I3 as [IC RN RL IF IA IR]. constructor; simpl; auto; try discriminate.
+          intros V. destruct (IF V) as [LP _]. split; [exact LP | discriminate].
+      + apply Inv_set_cur_none. apply Inv_set_reg_false; [exact I3|]. intros c0 H0. congruence.
+    - apply Inv_set_reg_false; [exact I3|]. intros c0 H0. congruence. }
+  destruct (vr w); [exact KT | exact KT | exact I3].
 Qed.
 
 Lemma inv_qstop w : Inv w -> Inv (wof (qstop w)).
@@ -579,11 +627,13 @@ Proof.
   intros I. unfold qstop. destruct (reg w); simpl; [|exact I].
   unfold with_cur. destruct (cur w) as [c|] eqn:Hc; [|exact I].
   destruct (active c) eqn:A.
-  - erewrite ctx_stop_spec; [ | exact (i_ctx _ I _ Hc) | exact A ]. simpl.
-    apply Inv_set_reg_false.
-    + pose proof (inv_ctx_stop c w I Hc) as I4.
-      erewrite ctx_stop_spec in I4; [ exact I4 | exact (i_ctx _ I _ Hc) | exact A ].
-    + intros c0 H0. unfold stopped_world in H0. simpl in H0. inv_some. reflexivity.
+  - destruct (all_caught w c) eqn:AC.
+    + erewrite ctx_stop_spec; [ | exact (i_ctx _ I _ Hc) | exact A | exact AC ]. simpl.
+      apply Inv_set_reg_false.
+      * pose proof (inv_ctx_stop c w I Hc) as I4.
+        erewrite ctx_stop_spec in I4; [ exact I4 | exact (i_ctx _ I _ Hc) | exact A | exact AC ].
+      * intros c0 H0. unfold stopped_world in H0. simpl in H0. inv_some. reflexivity.
+    + destruct (ctx_stop_abort c w A AC) as [l E]. rewrite E. simpl. apply Inv_hrunapp. exact I.
   - rewrite ctx_stop_inactive by exact A. exact I.
 Qed.
 
@@ -697,7 +747,7 @@ Proof.
 Qed.
 
 Lemma stop_reclaims w c :
-  Inv w -> cur w = Some c -> active c = true ->
+  Inv w -> cur w = Some c -> active c = true -> all_caught w c = true ->
   exists w' c', ctx_stop c w = Ret w' /\ cur w' = Some c' /\
     (forall o, In o (live_oids (objmap c)) -> count_occ Nat.eq_dec (rel w') o = 1) /\
     rel w' = rel w ++ live_oids (objmap c) /\
@@ -708,7 +758,7 @@ Lemma stop_reclaims w c :
     ctx_stop c' w' = Raise EUsage w' /\
     (forall i, call w' i = OSkip \/ call w' i = OExc EDelivery).
 Proof.
-  intros I Hc A. pose proof (i_ctx _ I _ Hc) as T.
+  intros I Hc A AC. pose proof (i_ctx _ I _ Hc) as T.
   exists (stopped_world c w), (stopped_ctx c).
   split; [ eapply ctx_stop_spec; eauto |]. split; [reflexivity|].
   split.
@@ -723,7 +773,7 @@ Qed.
 (* C12_failed_start *)
 Lemma new_ctx_props w :
   exists w1 c1, new_ctx w = Ret w1 /\ cur w1 = Some c1 /\ active c1 = false /\ used c1 = false /\
-    router c1 = false /\ vr w1 = vr w /\ md w1 = md w /\ reg w1 = reg w /\
+    router c1 = false /\ shs c1 = [] /\ vr w1 = vr w /\ md w1 = md w /\ reg w1 = reg w /\
     lport w1 = match cur w with Some c => tcp c || lport w | None => lport w end.
 Proof.
   unfold new_ctx, abandon. destruct (cur w) as [c|]; unfold internal_make; simpl;
@@ -731,7 +781,7 @@ Proof.
 Qed.
 
 Lemma failed_start_direct w c f :
-  Inv w -> vr w = Fixed -> cur w = Some c -> active c = false -> used c = false -> router c = false ->
+  Inv w -> vr w <> Current -> cur w = Some c -> active c = false -> used c = false -> router c = false ->
   start_fails f w = true ->
   exists w', ctx_start c f w = Raise EOSError w' /\
     (exists c', cur w' = Some c' /\ objmap c' = [] /\ handlers c' = [] /\ cthreads c' = [] /\
@@ -749,7 +799,7 @@ Proof.
     { simpl. apply nodup_app; [exact (i_relnd _ I) | exact (t_onodup _ _ _ _ _ T) |].
       intros x Hx. exact (t_notrel _ _ _ _ _ T x Hx). }
     apply (proj1 (NoDup_count_occ' Nat.eq_dec _) ND). simpl. apply in_or_app. right. exact Ho. }
-  destruct (new_ctx_props (aborted_world c w)) as [w1 [c1 [E [C1 [A1 [U1 [R1 [V1 [_ [_ L1]]]]]]]]]].
+  destruct (new_ctx_props (aborted_world c w)) as [w1 [c1 [E [C1 [A1 [U1 [R1 [_ [V1 [_ [_ L1]]]]]]]]]]].
   exists w1, c1. eexists. split; [exact E|]. split; [exact C1|].
   apply ctx_start_ok; auto. unfold start_fails. rewrite L1. simpl. destruct (i_fixed _ I V) as [LP _]. exact LP.
 Qed.
@@ -758,7 +808,7 @@ Lemma qstart_clean w p :
   reg w = false -> cur w = None -> lport w = false -> exists w', qstart FNone p w = Ret w'.
 Proof.
   intros R C L. unfold qstart. rewrite R.
-  destruct (new_ctx_props w) as [w1 [c1 [E [C1 [A1 [U1 [R1 [_ [_ [_ L1]]]]]]]]]]. rewrite C in L1.
+  destruct (new_ctx_props w) as [w1 [c1 [E [C1 [A1 [U1 [R1 [_ [_ [_ [_ L1]]]]]]]]]]]. rewrite C in L1.
   rewrite E. simpl bind. unfold qstart_body, with_cur at 1. simpl cur. rewrite C1.
   rewrite ctx_start_ok; auto; [ | unfold start_fails; simpl; congruence ].
   simpl. destruct p; [|eexists; reflexivity].
@@ -766,29 +816,30 @@ Proof.
 Qed.
 
 Lemma failed_qstart_fixed w f p e w' :
-  Inv w -> md w = Single -> vr w = Fixed -> reg w = false -> qstart f p w = Raise e w' ->
+  Inv w -> md w = Single -> vr w <> Current -> reg w = false -> qstart f p w = Raise e w' ->
   reg w' = false /\ cur w' = None /\ lport w' = false.
 Proof.
   intros I MS V R. unfold qstart. rewrite R.
   assert (forall c, cur w = Some c -> active c = false) as H.
   { intros c Hc. destruct (active c) eqn:A; [|reflexivity]. rewrite (i_reg _ I MS c Hc A) in R. discriminate. }
   pose proof (inv_new_ctx w I H) as I1.
-  destruct (new_ctx_props w) as [w1 [c1 [E [C1 [A1 [U1 [R1 [V1 [_ [_ L1]]]]]]]]]].
+  destruct (new_ctx_props w) as [w1 [c1 [E [C1 [A1 [U1 [R1 [SH [V1 [_ [_ L1]]]]]]]]]]].
   rewrite E in I1 |- *. simpl in I1. simpl bind.
   assert (lport w1 = false) as LP.
   { rewrite L1. destruct (i_fixed _ I V) as [LP HC]. destruct (cur w) as [c|] eqn:Hc; [|exact LP].
     destruct (HC c eq_refl (H c eq_refl)) as [TC _]. rewrite TC, LP. reflexivity. }
   pose proof (i_ctx _ I1 _ C1) as T1.
-  rewrite V. unfold qstart_body, with_cur at 1. simpl cur. rewrite C1.
+  unfold qstart_body, with_cur at 1. simpl cur. rewrite C1.
   destruct (start_fails f (set_reg w1 true)) eqn:F.
   - erewrite ctx_start_fixed_fail; eauto; [ | simpl; congruence ]. simpl.
+    rewrite vr_match by exact V. simpl.
     intros K. inversion K; subst. simpl. auto.
   - rewrite ctx_start_ok by auto. simpl bind.
     unfold start_fails in F. simpl in F.
     destruct f; try discriminate.
     + destruct p; [unfold with_cur, connect; simpl; discriminate | discriminate].
-    + unfold with_cur, connect. simpl.
-      erewrite ctx_stop_spec; [ | simpl; exact T1 | reflexivity ].
+    + unfold with_cur, connect. simpl. rewrite vr_match by exact V. simpl.
+      erewrite ctx_stop_spec; [ | simpl; exact T1 | reflexivity | unfold all_caught; simpl; rewrite SH; reflexivity ].
       simpl. intros K. inversion K; subst. simpl. auto.
 Qed.
 
@@ -840,7 +891,7 @@ Lemma stuck_after_failed_qstart :
 Proof. vm_compute. repeat split; auto. eexists. repeat split. Qed.
 
 Lemma failed_start_singleton_fixed : forall w f p e w',
-  Inv w -> md w = Single -> vr w = Fixed -> reg w = false -> qstart f p w = Raise e w' ->
+  Inv w -> md w = Single -> vr w <> Current -> reg w = false -> qstart f p w = Raise e w' ->
   (reg w' = false /\ cur w' = None /\ lport w' = false) /\
   forall p', exists w'', qstart FNone p' w' = Ret w''.
 Proof.
@@ -858,3 +909,30 @@ Proof.
   exists (QStart FTcp false). destruct stuck_after_failed_qstart as [S E]. split; [exact E|].
   intros ops. exact (stuck_run ops _ S).
 Qed.
+
+(* in the demanded behaviour every stop-handler fault is caught *)
+Lemma all_caught_fixed w c : vr w = Fixed -> all_caught w c = true.
+Proof.
+  intros V. unfold all_caught. rewrite V. apply forallb_forall. intros [i h] _. destruct h; reflexivity.
+Qed.
+
+Lemma stop_reclaims_all_faults w c :
+  Inv w -> vr w = Fixed -> cur w = Some c -> active c = true ->
+  exists w' c', ctx_stop c w = Ret w' /\ cur w' = Some c' /\
+    (forall o, In o (live_oids (objmap c)) -> count_occ Nat.eq_dec (rel w') o = 1) /\
+    rel w' = rel w ++ live_oids (objmap c) /\
+    hruns w' = hruns w ++ map fst (shs c) /\
+    objmap c' = [] /\ handlers c' = [] /\ cthreads c' = [] /\
+    router c' = false /\ tcp c' = false /\ udp c' = false /\ conn c' = false /\ active c' = false /\
+    (forall f, ctx_start c' f w' = Raise EUsage w') /\
+    ctx_stop c' w' = Raise EUsage w' /\
+    (forall i, call w' i = OSkip \/ call w' i = OExc EDelivery).
+Proof. intros I V Hc A. apply stop_reclaims; auto. apply all_caught_fixed. exact V. Qed.
+
+(* the tree as it is: a stop handler raising a BaseException that is not an Exception aborts stop(): the context
+   stays active, its objects alive and unreleased, the later handlers do not run *)
+Lemma stop_handler_base_refuted :
+  let r := run (init Direct Tree) [New; CStart FNone; Make 1 KObj true true; AddH HBase; AddH HOk; CStop] in
+  snd r = [OOk; OOk; OOk; OOk; OOk; OExc EBase] /\ rel (fst r) = [] /\ hruns (fst r) = [0] /\
+  match cur (fst r) with Some c => active c = true /\ cthreads c = [0; 1] /\ router c = true | None => False end.
+Proof. vm_compute. repeat split; reflexivity. Qed.
